@@ -3,11 +3,39 @@ package harness
 import (
 	"bufio"
 	"encoding/json"
+	"fmt"
 	"os"
+	"runtime"
 	"strconv"
 	"testing"
 	"testing/synctest"
+	"time"
 )
+
+// watchdog ends the worker when one scenario does not finish within a wall
+// clock budget four orders of magnitude above what a scenario takes: inside a
+// bubble a goroutine blocked on a mutex (not a channel) keeps virtual time from
+// advancing, so a wedged router or client shows up as a scenario that never
+// ends. The goroutine dump goes to stderr; the driver attributes the death of
+// the worker to the scenario.
+func watchdog(id string) chan struct{} {
+	stop := make(chan struct{})
+	budget := 45 * time.Second
+	if v, err := strconv.Atoi(os.Getenv("VERIF_WALL_S")); err == nil && v > 0 {
+		budget = time.Duration(v) * time.Second
+	}
+	go func() {
+		select {
+		case <-stop:
+		case <-time.After(budget):
+			buf := make([]byte, 1<<20)
+			buf = buf[:runtime.Stack(buf, true)]
+			fmt.Fprintf(os.Stderr, "fatal error: verif watchdog: scenario %s did not finish within %s (goroutines wedged)\n\n%s\n", id, budget, buf)
+			os.Exit(3)
+		}
+	}()
+	return stop
+}
 
 // TestExec runs the router scenarios of $VERIF_SCN (ndjson, one scenario per
 // line) and appends trace events to $VERIF_OUT. $VERIF_SKIP scenarios are
@@ -51,9 +79,11 @@ func TestExec(t *testing.T) {
 		}
 		w.Flush()
 		_ = os.WriteFile(outFile+".progress", []byte(strconv.Itoa(idx)+" "+s.ID+"\n"), 0o644)
+		stop := watchdog(s.ID)
 		synctest.Test(t, func(t *testing.T) {
 			x.RunScenario(&s)
 		})
+		close(stop)
 		w.Flush()
 	}
 	_ = os.WriteFile(outFile+".progress", []byte("done\n"), 0o644)
